@@ -344,6 +344,111 @@ theorem stepH_sym (hn : cf.nx = 2 * m) (r : Nat) (hr : r ≤ m)
     · generalize optAt _ _ _ _ = sig
       cases sig <;> simp only [updH1] <;> ring
 
+/-! ### mirror-symmetric far faces: the outermost pair -/
+
+/-- the x faces of the full domain form a mirror-symmetric pair about the plane: the zero right ghost of the
+tangential E at `2m` (an electric wall on the max edge) is matched by a PEC layer at index 0, and a PMC layer, if any,
+sits at both ends -/
+structure FarSym (cf : Cfg K) : Prop where
+  wrap : cf.bx.wrap = false
+  pecLo : cf.bx.pecLo = true
+  pecHi : cf.bx.pecHi = false
+  pmc : cf.bx.pmcLo = cf.bx.pmcHi
+
+/-- the H half step with the outermost pair included: needs the mirror-symmetric far faces and tangential E = 0 on
+the far PEC layer (which `projE` has just enforced) -/
+theorem stepH_sym_edge (hn : cf.nx = 2 * m) (hm : 0 < m) (hf : FarSym cf)
+    (mt : Mat K) (hx : XInv mt) (hmet : MetricSym cf m m) (jH E H : V3 K)
+    (sE : SymE m m E) (sH : SymH m m H) (sJ : SymH m m jH)
+    (e0y : ∀ j k, E.y 0 j k = 0) (e0z : ∀ j k, E.z 0 j k = 0) : SymH m m (stepH cf mt jH E H) := by
+  have inner := stepH_sym hn m (le_refl m) mt hx hmet jH E H sE sH sJ
+  have zero : ∀ j k, (stepH cf mt jH E H).x m j k = 0 := fun j k =>
+    stepH_plane_zero (cf := cf) mt jH E H (fun j k => sE.y0 j k hm) (fun j k => sE.z0 j k hm) j k (sH.x0 j k hm)
+      (sJ.x0 j k hm)
+  have wallEq : onWall cf.bx.pmcLo cf.bx.pmcHi cf.nx (m + (m - 1)) = onWall cf.bx.pmcLo cf.bx.pmcHi cf.nx 0 := by
+    have a1 : (m + (m - 1) == 0) = false := by simp; omega
+    have a2 : (m + (m - 1) + 1 == 2 * m) = true := by simp; omega
+    have a3 : (0 + 1 == 2 * m) = false := by simp; omega
+    simp [onWall, hn, a1, a2, a3, hf.pmc]
+  refine ⟨?_, fun j k _ => zero j k, ?_, ?_⟩
+  · intro d j k hd
+    rcases Nat.eq_zero_or_pos d with rfl | h0
+    · rw [Nat.add_zero, Nat.sub_zero, zero j k, neg_zero]
+    have hy' : ∀ j k, E.y (m + d) j k = - E.y (m - d) j k := fun j k => sE.y d j k hd
+    have hz' : ∀ j k, E.z (m + d) j k = - E.z (m - d) j k := fun j k => sE.z d j k hd
+    simp only [stepH, projH, maskV, addV, curlE]
+    rw [pmcMask_x_indep (m + d) (m - d)]
+    simp only [hy', hz', next1_neg, sH.x d j k hd, sJ.x d j k hd, hx.mx (m + d) (m - d) j k,
+      optAt_const mt.sigH (·.x) hx.sHx (m + d) (m - d) j k]
+    split_ifs
+    · simp
+    · generalize optAt _ _ _ _ = sig
+      cases sig <;> simp only [updH1] <;> ring
+  · intro d j k hd
+    by_cases hl : d < m - 1
+    · exact inner.y d j k hl
+    have hdm : d = m - 1 := by omega
+    subst hdm
+    have i0 : m - 1 - (m - 1) = 0 := by omega
+    have hx' : ∀ j k, E.x (m + (m - 1)) j k = E.x 0 j k := fun j k => by
+      have := sE.x (m - 1) j k hd; rwa [i0] at this
+    have e1 : next1 cf.nx cf.bx (fun i' => E.z i' j k) (m + (m - 1)) = 0 := by
+      have : ¬ (m + (m - 1) + 1 < cf.nx) := by omega
+      simp [next1, this, hf.wrap]
+    have e2 : next1 cf.nx cf.bx (fun i' => E.z i' j k) 0 = - E.z (m + (m - 1)) j k := by
+      rw [next1_lt _ _ _ _ (by omega)]
+      have := sE.z (m - 1) j k hd
+      rw [show m - (m - 1) = 0 + 1 by omega] at this
+      rw [this, neg_neg]
+    simp only [stepH, projH, maskV, addV, curlE, i0]
+    rw [pmcMask_of_onWall 1 (m + (m - 1)) 0 j k wallEq]
+    have hs := hmet.sf (m - 1) hd
+    rw [i0] at hs
+    have hH := sH.y (m - 1) j k hd
+    have hJ := sJ.y (m - 1) j k hd
+    rw [i0] at hH hJ
+    simp only [hx', e1, e2, e0z, hH, hJ, hs, hx.my (m + (m - 1)) 0 j k,
+      optAt_const mt.sigH (·.y) hx.sHy (m + (m - 1)) 0 j k]
+    split_ifs
+    · rfl
+    · generalize optAt _ _ _ _ = sig
+      cases sig <;> simp only [updH1] <;> ring
+  · intro d j k hd
+    by_cases hl : d < m - 1
+    · exact inner.z d j k hl
+    have hdm : d = m - 1 := by omega
+    subst hdm
+    have i0 : m - 1 - (m - 1) = 0 := by omega
+    have hx' : ∀ j k, E.x (m + (m - 1)) j k = E.x 0 j k := fun j k => by
+      have := sE.x (m - 1) j k hd; rwa [i0] at this
+    have e1 : next1 cf.nx cf.bx (fun i' => E.y i' j k) (m + (m - 1)) = 0 := by
+      have : ¬ (m + (m - 1) + 1 < cf.nx) := by omega
+      simp [next1, this, hf.wrap]
+    have e2 : next1 cf.nx cf.bx (fun i' => E.y i' j k) 0 = - E.y (m + (m - 1)) j k := by
+      rw [next1_lt _ _ _ _ (by omega)]
+      have := sE.y (m - 1) j k hd
+      rw [show m - (m - 1) = 0 + 1 by omega] at this
+      rw [this, neg_neg]
+    simp only [stepH, projH, maskV, addV, curlE, i0]
+    rw [pmcMask_of_onWall 2 (m + (m - 1)) 0 j k wallEq]
+    have hs := hmet.sf (m - 1) hd
+    rw [i0] at hs
+    have hH := sH.z (m - 1) j k hd
+    have hJ := sJ.z (m - 1) j k hd
+    rw [i0] at hH hJ
+    simp only [hx', e1, e2, e0y, hH, hJ, hs, hx.mz (m + (m - 1)) 0 j k,
+      optAt_const mt.sigH (·.z) hx.sHz (m + (m - 1)) 0 j k]
+    split_ifs
+    · rfl
+    · generalize optAt _ _ _ _ = sig
+      cases sig <;> simp only [updH1] <;> ring
+
+
+theorem stepE_farPec_zero (hf : FarSym cf) (mt : Mat K) (jE E H : V3 K) (j k : Nat) :
+    (stepE cf mt jE E H).y 0 j k = 0 ∧ (stepE cf mt jE E H).z 0 j k = 0 := by
+  constructor <;> simp [stepE, projE, maskV, pecMask, onWall, hf.pecLo]
+
+
 /-! ### vocabulary of the property theorems -/
 
 /-- reduced and full arrays agree on the layers `s ≤ i < m` of the reduced domain -/
